@@ -164,20 +164,69 @@ func c10r2(w *World, rr *RuleRun) {
 	interval := w.P.Field("", "tokenServer", "interval")
 	maxDelta := w.P.Field("", "tokenServer", "maxIntervalDelta")
 	addr := w.ParamTerm(ct, "addr")
-	// writes into the hash
-	var writes []ssa.Instruction
-	eachInstr([]*ssa.Function{ct}, func(_ *ssa.Function, ins ssa.Instruction) {
+	// what is hashed: the arguments of the hasher's Write calls (streaming form), or the operands
+	// appended to the buffer handed to a one-shot Sum (append / Append* chain from an empty slice)
+	type hashInput struct {
+		at    ssa.Instruction
+		bytes ssa.Value // byte-slice operand (nil for a numeric Append*)
+		num   ssa.Value // numeric operand of binary Append*/Put*
+	}
+	var inputs []hashInput
+	eachInstr(w.RegionOf(ct), func(_ *ssa.Function, ins ssa.Instruction) {
 		c := callInstrCommon(ins)
 		if c != nil && c.IsInvoke() && c.Method.Name() == "Write" {
-			writes = append(writes, ins)
+			inputs = append(inputs, hashInput{at: ins, bytes: c.Args[0]})
 		}
 	})
+	if len(inputs) == 0 {
+		eachInstr(w.RegionOf(ct), func(_ *ssa.Function, ins ssa.Instruction) {
+			c := callInstrCommon(ins)
+			if c == nil {
+				return
+			}
+			o := calleeObj(c)
+			if o == nil || o.Pkg() == nil || !strings.HasPrefix(o.Pkg().Path(), "crypto/") || !strings.HasPrefix(o.Name(), "Sum") || len(c.Args) != 1 {
+				return
+			}
+			// walk the append chain backwards
+			v := c.Args[0]
+			for depth := 0; depth < 12 && v != nil; depth++ {
+				call, ok := v.(*ssa.Call)
+				if !ok {
+					break
+				}
+				cc := call.Common()
+				if b, isB := cc.Value.(*ssa.Builtin); isB && b.Name() == "append" && len(cc.Args) == 2 {
+					inputs = append(inputs, hashInput{at: call, bytes: cc.Args[1]})
+					v = cc.Args[0]
+					continue
+				}
+				if co := calleeObj(cc); co != nil && strings.HasPrefix(co.Name(), "AppendUint") && len(cc.Args) >= 2 {
+					inputs = append(inputs, hashInput{at: call, num: cc.Args[len(cc.Args)-1]})
+					v = cc.Args[len(cc.Args)-2]
+					continue
+				}
+				break
+			}
+		})
+	}
+	isIndexTerm := func(v string) bool {
+		return strings.Contains(v, "UnixNano") && strings.Contains(v, ".interval") && strings.Contains(v, "/")
+	}
 	sawIP, sawSecret, sawTime := false, false, false
-	for _, wr := range writes {
-		arg := callInstrCommon(wr).Args[0]
-		t := w.TS.Of(arg)
-		s := t.String()
-		bad := ""
+	for _, in := range inputs {
+		kind, s, bad := "?", "", ""
+		if in.num != nil {
+			s = w.TS.Of(in.num).String()
+			if isIndexTerm(s) {
+				kind = "interval-index"
+				sawTime = true
+			}
+			rr.At(w, in.at, "token hash input", kind == "interval-index", kind+": "+s)
+			continue
+		}
+		t := w.TS.Of(in.bytes)
+		s = t.String()
 		t.Walk(func(x *Term) bool {
 			if x.Op == OpCall && len(x.Args) > 0 && termEq(x.Args[0], addr) {
 				n := x.Name
@@ -187,7 +236,6 @@ func c10r2(w *World, rr *RuleRun) {
 			}
 			return true
 		})
-		kind := "?"
 		switch {
 		case bad != "":
 			kind = "forbidden"
@@ -210,15 +258,14 @@ func c10r2(w *World, rr *RuleRun) {
 					if f != ct && !(bufLocal != nil && storedFromCallTo(bufLocal, f)) {
 						return // fills some other helper's buffer
 					}
-					v := w.TS.Of(c.Args[2]).String()
-					if strings.Contains(v, "UnixNano") && strings.Contains(v, ".interval") && strings.Contains(v, "/") {
+					if isIndexTerm(w.TS.Of(c.Args[2]).String()) {
 						kind = "interval-index"
 						sawTime = true
 					}
 				}
 			})
 		}
-		rr.At(w, wr, "token hash input", kind == "ip" || kind == "secret" || kind == "interval-index", kind+": "+s+" "+bad)
+		rr.At(w, in.at, "token hash input", kind == "ip" || kind == "secret" || kind == "interval-index", kind+": "+s+" "+bad)
 	}
 	rr.Oblige(shortFuncName(ct), "token hashes the source IP", w.P.Pos(ct.Pos()), sawIP, "")
 	rr.Oblige(shortFuncName(ct), "token hashes the secret", w.P.Pos(ct.Pos()), sawSecret, "")
